@@ -534,7 +534,7 @@ class C04:
         return False
 
     def clip_evaluation_models(self, parts):
-        """Every ClipEvaluation of a small scope -- up to two annotated and two predicted sound events, match lists of up to two
+        """Every ClipEvaluation of a small scope -- up to two annotated and two predicted sound events (also one listed twice), match lists of up to two
         matches over those, one foreign identifier per side and None (all of them), of three matches over the known identifiers and
         None, same / different clip -- must be rejected by the validators exactly when it violates the statement: clips differ, or
         the targets (sources) of the matches are not the annotated (predicted) sound events, each exactly once.
@@ -553,13 +553,14 @@ class C04:
         def valid(A, P, ms, same_clip):
             ts = sorted(t_ for _, t_ in ms if t_ is not None)
             ss = sorted(s_ for s_, _ in ms if s_ is not None)
-            return same_clip and ts == sorted(A) and ss == sorted(P)
+            # (a sound event listed twice among the annotated ones is still ONE sound event to be mentioned once)
+            return same_clip and ts == sorted(set(A)) and ss == sorted(set(P))
 
         wide = [(s_, t_) for s_ in (None, 11, 12, 13) for t_ in (None, 1, 2, 3) if not (s_ is None and t_ is None)]
         narrow = [(s_, t_) for s_ in (None, 11, 12) for t_ in (None, 1, 2) if not (s_ is None and t_ is None)]
         cases = []
-        for A in ([], [1], [1, 2]):
-            for P in ([], [11], [11, 12]):
+        for A in ([], [1], [1, 2], [1, 1]):
+            for P in ([], [11], [11, 12], [11, 11]):
                 for n in range(3):
                     for ms in it.product(wide, repeat=n):
                         cases.append((A, P, list(ms), True))
